@@ -3,7 +3,7 @@ from . import supcommon as S
 
 OCAML = S.OCAML
 GO = S.GO
-FAMILIES = "mixed,big,sdsender,startup,earlyshutdown,errs,slowstop".split(",")
+FAMILIES = "mixed,big,sdsender,startup,earlyshutdown,errs,slowstop,shutdownfirst".split(",")
 PROP = "props/C01.v"
 PROOFS = ["proofs/SupInv.v", "proofs/SupStop.v", "proofs/SupTrig.v", "proofs/SupGate.v", "proofs/SupOnce.v"]
 
